@@ -542,6 +542,12 @@ func c02Programs(tier string) []*Program {
 			for _, rl := range []bool{false, true} {
 				r := Spec{Kind: KRetry, MaxRetries: 3, MaxDuration: M, Delay: delay, ReturnLast: rl}
 				progs = append(progs, &Program{Stack: []Spec{r}, Scripts: [][]Out{{{Err: E1, Dur: d}}, {{Err: E1, Dur: d}, {V: 1, Dur: d}}}, Checks: "layers,events,stats"})
+				if d > 0 {
+					// the policy inside another retry policy: once it has given up because of its max duration it
+					// passes the later outer attempts through (and reports OnRetriesExceeded once)
+					outer := Spec{Kind: KRetry, MaxRetries: 2}
+					progs = append(progs, &Program{Stack: []Spec{outer, r}, Scripts: [][]Out{{{Err: E1, Dur: d}}}, Checks: "layers,events,stats"})
+				}
 				if d+delay > 0 {
 					// unlimited retries: the max duration is the only thing that ends them (the script succeeds
 					// after 40 failures, long after the max duration, so that every program terminates)
